@@ -376,6 +376,13 @@ func genRequest(r *lib.RNG, id string, c *config, last bool, maxBody int) *sentR
 		}
 		special += "C"
 	}
+	// body-bearing requests sometimes announce the body with Expect: 100-continue and, like most
+	// clients after a short wait, send it without having seen an interim response
+	willHaveBody := s.Method == "POST" || s.Method == "PUT" || s.Method == "PATCH" || s.Method == "PROPFIND" || s.Method == "X-CUSTOM"
+	if willHaveBody && s.Proto == "HTTP/1.1" && r.Chance(1, 25) {
+		fs = append(fs, lib.Field{"Expect", "100-continue"})
+		special += "X"
+	}
 	lib.Shuffle(r, fs)
 	// Host first (absolute-form too; must agree with the URL)
 	fs = append([]lib.Field{{"Host", s.Host}}, fs...)
